@@ -69,3 +69,15 @@ package node
 //@   ensures [C18.export.node.pool] has(Pool) ==> genesis.Pool != nil && *genesis.Pool == get(Pool)
 //@   ensures [C18.export.node.valid] has(Pool) ==> (forall a int, b int :: 0 <= a && a < b && b < len(genesis.NodeList) ==> genesis.NodeList[a].Creator != genesis.NodeList[b].Creator)
 //@       && (forall a int, b int :: 0 <= a && a < b && b < len(genesis.PledgeDebtList) ==> genesis.PledgeDebtList[a].Sp != genesis.PledgeDebtList[b].Sp)
+
+// EndBlock: penalty tick every 600 blocks; nodes that have not reported for the trigger period are taken offline, nothing else
+// of any node changes
+//@ func EndBlock(ctx, k)
+//@   nopanic [C02.nodeend.nopanic]
+//@   modifies Node, FaultIdx, FaultById
+//@   ensures [C10.nodeend.offline] forall c string :: (has(Node, c) <==> old(has(Node, c))) && (has(Node, c) ==> Node[c] == old(Node[c])
+//@       || (i64(old(Node[c].LastAliveHeight) + param(KeyOfflineTriggerHeight)) < H && Node[c] == with(old(Node[c]), Status, 0)))
+//@   loop L1 invariant -1 <= rangeindex && rangeindex < len(nodes)
+//@   loop L1 invariant forall c string :: (has(Node, c) <==> entry(has(Node, c))) && (has(Node, c) ==> Node[c] == entry(Node[c])
+//@       || (i64(entry(Node[c].LastAliveHeight) + param(KeyOfflineTriggerHeight)) < H && Node[c] == with(entry(Node[c]), Status, 0)))
+//@   loop L1 decreases [C02.nodeend.term] len(nodes) - rangeindex
